@@ -3,6 +3,7 @@ import importlib.util
 import json
 import os
 import random
+import re
 
 import vlib
 import pool_common
@@ -100,7 +101,7 @@ def cfg_for(ctx, fixed):
 def code_has_wany_fix():
     p = os.path.join(vlib.REPO, 'dispenso/detail/future_impl2.h')
     try:
-        return 'verif-fix: when_any inline winner' in open(p).read()
+        return 'if (shared->winner.compare_exchange_strong(expected, size_t{0}' in open(p).read()
     except OSError:
         return False
 
@@ -116,25 +117,78 @@ def run_and_validate(ctx, exe, texts, what, label, n=4, seed=1, pct=3, spurious=
     args = ['--out', raw, '--progs', progs, '--random', n, '--seed', seed, '--pct', pct, '--maxsteps', maxsteps]
     if spurious:
         args.append('--spurious')
-    tot, out = ctx.driver(exe, args, what, label=label, allow_incomplete=True)
     tr = os.path.join(ctx.work, 'tr_%s.ndjson' % tag)
-    if not os.path.exists(raw):
-        return None, tot
-    annotate(raw, tr)
-    res = ctx.validate(SPEC, 'FutureTrace.tla', cfg_for(ctx, fixed), tr, what + ' [' + label + ']',
-                       executions=tot.get('completed', 0), label=label)
-    if tot and tot.get('executions', 0) > tot.get('completed', 0) + tot.get('deadlocks', 0) and not res.violation:
-        # an execution hit the step bound: with PCT priorities a spinning waiter (TaskSet::wait) can starve the worker
-        # it waits for; under the uniform random scheduler it means the program does not terminate
-        path = ctx.save_replay('%s-stalled.txt' % ctx.prop, 'programs:\n%s\nan execution did not finish within %d steps\n\n%s'
-                               % ('\n'.join(texts), maxsteps, ctx._trace_context(tr, sum(1 for _ in open(tr)))))
-        ctx.violation('stalled:' + label, what + ': an execution never completes [' + label + ']', path)
+    tot = {}
+    # a violation is reported only if it repeats when the same seeds are run again (a controlled run on an overloaded
+    # machine can report a spurious "nothing runnable" while a really blocked thread - join - is slow to come back)
+    for attempt in (0, 1):
+        final = attempt == 1
+        tot, out = ctx.driver(exe, args, what, label=label, allow_incomplete=True, report=final)
+        if not os.path.exists(raw):
+            continue
+        annotate(raw, tr)
+        res = ctx.validate(SPEC, 'FutureTrace.tla', cfg_for(ctx, fixed), tr, what + ' [' + label + ']',
+                           executions=tot.get('completed', 0), label=label, report=final)
+        stalled = bool(tot) and tot.get('executions', 0) > tot.get('completed', 0) + tot.get('deadlocks', 0)
+        if stalled and final and not res.violation:
+            # an execution hit the step bound under the (fair with probability 1) random scheduler: it does not terminate
+            path = ctx.save_replay('%s-stalled.txt' % ctx.prop, 'programs:\n%s\nan execution did not finish within %d steps'
+                                   '\n\n%s' % ('\n'.join(texts), maxsteps, ctx._trace_context(tr, sum(1 for _ in open(tr)))))
+            ctx.violation('stalled:' + label, what + ': an execution never completes [' + label + ']', path)
+        if tot and not res.violation and not stalled:
+            break
     return tr, tot
 
 
-def model(ctx, name, what, label, workers_const='MCNoWorkers', fixed=False, spurious=False, dump=None, exempt=None):
-    """E1: TLC on one of the generated MC programs"""
-    cfgdir = os.path.join(vlib.ROOT, SPEC)
-    cfg = 'MC_%s.cfg' % name
-    return ctx.check_model(SPEC, 'MCFuture.tla', cfg, what, label=label, dump=dump, workers=4,
-                           vacuity_exempt=tuple(ALL_ACTIONS) if exempt is None else exempt)
+# actions every model must take at least once (vacuity check); everything else is exempt for that model
+COMMON = 'Start DrOp DrEnd FuRunCas FuNotify FutexWake FuChainLd FuWaitLd FuDecRef FuDealloc Terminated'
+MUST = {
+    'cover': COMMON + ' GateUp DrRunQ FuWaitBlock FutexWait FutexRet FuIncRef',
+    'three': COMMON + ' GateUp DrRunQ FuWaitBlock FutexWait FutexRet FuIncRef',
+    'exc': COMMON + ' GateUp DrRunQ FuIncRef FuThenLd FuThenHeadLd FuThenPush FuThenRecheck FuChainTake FuReadyLd',
+    'pool': COMMON + ' GateUp FuIncRef PoolEnter PoolReturn FuWaitBlock FutexWait FutexRet',
+    'newthread': COMMON + ' GateUp FuIncRef FuWaitBlock FutexWait FutexRet',
+    'then': COMMON + ' GateUp DrRunQ FuIncRef FuThenLd FuThenHeadLd FuThenPush FuThenRecheck FuChainTake FuReadyLd',
+    'then2': COMMON + ' GateUp DrRunQ FuIncRef FuThenLd FuThenHeadLd FuThenPush FuThenRecheck FuChainTake FuReadyLd',
+    'tset': COMMON + ' GateUp FuIncRef FuTscInc FuTscDec FuThenLd FuThenHeadLd FuThenPush FuThenRecheck FuChainTake '
+                     'FuReadyLd PoolEnter PoolReturn',
+    'wall': COMMON + ' GateUp DrRunQ FuIncRef FuThenLd FuThenHeadLd FuThenPush FuThenRecheck FuChainTake FuWaDec FuWaCountLd',
+    'wall1': COMMON + ' GateUp DrRunQ FuIncRef FuThenLd FuThenHeadLd FuThenPush FuThenRecheck FuChainTake FuWaDec FuWaCountLd '
+                      'FuReadyLd FuWaitBlock FutexWait FutexRet',
+    'wall0': 'Start DrOp DrEnd FuWaitLd FuDecRef FuDealloc Terminated',
+    'wallts': COMMON + ' GateUp DrRunQ FuIncRef FuThenLd FuThenHeadLd FuThenPush FuThenRecheck FuChainTake FuWaDec '
+                       'FuTscInc FuTscDec PoolReturn FuReadyLd',
+    'wany': COMMON + ' GateUp DrRunQ FuIncRef FuThenLd FuThenHeadLd FuThenPush FuThenRecheck FuChainTake FuWyCas FuWyWinnerLd '
+                     'FuWyInlineCas FuWyWinnerLd2',
+    'wany1': COMMON + ' GateUp DrRunQ FuIncRef FuThenLd FuThenHeadLd FuThenPush FuThenRecheck FuChainTake FuWyCas FuWyWinnerLd '
+                      'FuWyInlineCas FuWyWinnerLd2',
+    'timed': COMMON + ' GateUp DrRunQ FuIncRef FutexWait FutexRet FutexTimeout',
+    'timed_d': COMMON + ' GateUp DrRunQ FuIncRef FutexWait FutexRet FutexTimeout FuReadyLd',
+}
+
+
+def model(ctx, name, what, label, fixed=False, dump=None, timeout=900):
+    """E1: TLC on one of the generated MC programs (spec/future/gen.py: MC)"""
+    cfg = 'MC_%s%s.cfg' % (name, '_fixed' if fixed and name in ('wany', 'wany1') else '')
+    must = set(MUST[name].split())
+    return ctx.check_model(SPEC, 'MCFuture.tla', cfg, what, label=label, dump=dump, workers=4, timeout=timeout,
+                           vacuity_exempt=tuple(a for a in ALL_ACTIONS if a not in must))
+
+
+def cover_replay(ctx, exe, name, what, fixed=False):
+    """E1 + E2 + E3: model-check the cover program `name`, turn its state graph into transition-covering schedules,
+    replay every schedule in the real code and validate what was recorded"""
+    dot = os.path.join(ctx.work, 'cover_%s.dot' % name)
+    model(ctx, name, what, 'cover configuration %s: %s' % (name, gen.MC[name]), fixed=fixed, dump=dot)
+    sched = os.path.join(ctx.work, 'cover_%s.sched' % name)
+    info = ctx.walker(dot, sched)
+    ctx.cov.setdefault('cover_graphs', {})[name] = info
+    progs = os.path.join(ctx.work, 'progs_cover_%s.txt' % name)
+    write_progs(progs, [gen.MC[name]])
+    raw = os.path.join(ctx.work, 'raw_cover_%s.ndjson' % name)
+    tot, _ = ctx.driver(exe, ['--out', raw, '--progs', progs, '--schedules', sched], what, label='cover replay ' + name)
+    tr = os.path.join(ctx.work, 'tr_cover_%s.ndjson' % name)
+    annotate(raw, tr)
+    ctx.validate(SPEC, 'FutureTrace.tla', cfg_for(ctx, fixed), tr, what + ' [cover replay %s]' % name,
+                 executions=tot.get('completed', 0), label='cover replay ' + name)
+    return tr
